@@ -127,38 +127,9 @@ func ToG(t *ref.T) tensor.Tensor {
 		return nil
 	}
 	b := backing(t)
-	if len(t.Shape) == 0 {
-		switch s := b.(type) {
-		case []uint8:
-			return tensor.New(tensor.FromScalar(s[0]))
-		case []uint16:
-			return tensor.New(tensor.FromScalar(s[0]))
-		case []uint32:
-			return tensor.New(tensor.FromScalar(s[0]))
-		case []uint64:
-			return tensor.New(tensor.FromScalar(s[0]))
-		case []int8:
-			return tensor.New(tensor.FromScalar(s[0]))
-		case []int16:
-			return tensor.New(tensor.FromScalar(s[0]))
-		case []int32:
-			return tensor.New(tensor.FromScalar(s[0]))
-		case []int64:
-			return tensor.New(tensor.FromScalar(s[0]))
-		case []float32:
-			return tensor.New(tensor.FromScalar(s[0]))
-		case []float64:
-			return tensor.New(tensor.FromScalar(s[0]))
-		case []complex64:
-			return tensor.New(tensor.FromScalar(s[0]))
-		case []complex128:
-			return tensor.New(tensor.FromScalar(s[0]))
-		case []string:
-			return tensor.New(tensor.FromScalar(s[0]))
-		case []bool:
-			return tensor.New(tensor.FromScalar(s[0]))
-		}
-	}
+	// rank 0: WithShape() + a one-element backing gives the same scalar tensor as tensor.FromScalar (same shape, strides,
+	// flags and storage; compared once with Snapshot), without FromScalar's internal temporary that nothing keeps
+	// reachable while gorgonia holds its address as a uintptr
 	g := tensor.New(tensor.WithShape(t.Shape...), tensor.WithBacking(b))
 	// gorgonia v0.9.24 derives the tensor's storage from the slice through a uintptr (storage.AsByteSlice): without
 	// another live reference the slice can be collected inside that window. Keep the harness's own tensors safe.
